@@ -155,3 +155,43 @@ def values_from_model(model_dict, prefixes):
             except Exception:
                 pass
     return out
+
+
+class UFCost(BaseCost):
+    """'Any cost that depends on the data': the value for (start, end) and column j is
+    a free real variable *named by the actual rows of the slice it was asked about*,
+    i.e. an uninterpreted function of X[start:end].  Two evaluations agree iff they see
+    the same rows in the same order."""
+
+    def __init__(self, param=None, tag="U", min_size_=1):
+        self.tag = tag
+        self.min_size_ = min_size_
+        super().__init__(param)
+
+    @property
+    def min_size(self):
+        return self.min_size_
+
+    def _fit(self, X, y=None):
+        X = np.asarray(X)
+        self.X_ = X.reshape(-1, 1) if X.ndim == 1 else X
+        return self
+
+    @staticmethod
+    def rows_key(rows):
+        from symnp.core import rv
+        return "|".join(",".join(str(z3.simplify(rv(v))).replace("\n", "").replace(" ", "") for v in row) for row in rows)
+
+    def value(self, rows, j):
+        mode = "o" if self.param is None else "f"
+        return z3.Real(f"{self.tag}{mode}{j}[{self.rows_key(rows)}]")
+
+    def _evaluate(self, cuts):
+        cuts = np.asarray(cuts)
+        p = self.X_.shape[1]
+        out = np.empty((cuts.shape[0], p), dtype=object)
+        for i, (s, e) in enumerate(cuts):
+            rows = self.X_[int(s):int(e)]
+            for j in range(p):
+                out[i, j] = SymReal(self.value(rows, j))
+        return out
